@@ -238,7 +238,7 @@ func genDisc(t *rapid.T) DiscCase {
 		// the listing request itself is refused. Olla stops asking such an endpoint for its models
 		// until it recovers, so these cases run in recovery mode (every round is a recovery)
 		c.Mode = "recovery"
-		c.Status = rapid.SampledFrom([]int{401, 403, 404, 429, 500, 503}).Draw(t, "status")
+		c.Status = rapid.SampledFrom([]int{401, 403, 404, 429, 500, 503, 202, 204, 206}).Draw(t, "status")
 		c.Poison = []byte(rapid.SampledFrom([]string{`{"error":{"message":"unauthorized"}}`, "", "<html>gateway</html>", string(good)}).Draw(t, "errbody"))
 	case "empty":
 		c.Poison = []byte(rapid.SampledFrom(emptyBodies).Draw(t, "empty"))
@@ -617,6 +617,11 @@ func runDisc(c DiscCase) []ev.Violation {
 			after = "replaced-by-payload-names"
 		}
 		dupEntries = len(names) != len(set)
+		if !unchanged && c.Status != 0 {
+			// an answer other than 200 carries no listing: it is a failed poll, and a failed poll
+			// leaves the endpoint's previous listing in place
+			return "discovery/listing-changed-by-non-200-answer", fmt.Sprintf("endpoint A (%s) had %v; its listing poll was answered with status %d (%s) and it now lists %v", c.TypeA, c.GoodA, c.Status, show([]byte(poison)), names)
+		}
 		if !unchanged {
 			for n := range set {
 				if n == "" {
